@@ -244,14 +244,12 @@ func parseGroup(node *yaml.Node, schema Schema, offsetLine, offsetColumn int, co
 		setKeys[entry.key.Value] = struct{}{}
 	}
 
-	if _, ok := setKeys["rules"]; ok {
-		if _, ok := setKeys["name"]; !ok {
-			group.Error = ParseError{
-				Line: node.Line,
-				Err:  errors.New("incomplete group definition, name is required and must be set"),
-			}
-			return group
+	if _, ok := setKeys["name"]; !ok {
+		group.Error = ParseError{
+			Line: node.Line,
+			Err:  errors.New("incomplete group definition, name is required and must be set"),
 		}
+		return group
 	}
 
 	return group
